@@ -1291,7 +1291,12 @@ impl CodegenContext {
                 args: &[&Located<Expression>],
             ) -> EvaluationResult<Option<SymbolData>> {
                 let expr = args.first().unwrap();
-                match ctx.evaluate_expression(expr, false) {
+                // A symbol that is mentioned here is a usage of that symbol (it can be navigated to and it is
+                // renamed along with the symbol), but it is not an error when the symbol does not exist.
+                let mark = ctx.num_usages();
+                let result = ctx.evaluate_expression(expr, true);
+                ctx.forget_unresolved_usages_since(mark);
+                match result {
                     Ok(result) => {
                         if result.is_some() {
                             Ok(Some(1.into()))
